@@ -133,11 +133,40 @@ def cls_result_from_the_future(clause, lines):
     return bool(again) and all(i in adds and adds[i]["fixed"] == 0 and obs["dts"].get(i, 0) > now for i in again)
 
 
+def cls_trigger_before_start(clause, lines):
+    """F-C05e: the trigger_time a downtime records lies before its start_time - (a) a non-OK result whose execution_end
+    lies before start_time is processed inside the window (TriggerDowntimes(cr->GetExecutionEnd())), or (b) a downtime
+    chained to another one inherits the trigger time of that one, which took effect before the chained one's window began."""
+    if clause != "trigger_not_before_start":
+        return False
+    op, a, obs = parse_line(lines[-1])
+    if obs is None:
+        return False
+    adds = adds_of(lines)
+    prev = {}
+    for l in lines[:-1]:
+        o = parse_line(l)[2]
+        if o is not None:
+            prev = o["dts"]
+    bad = [i for i, t in obs["dts"].items() if t != 0 and prev.get(i, 0) == 0 and i in adds and t < adds[i]["start"]]
+    if not bad:
+        return False
+    for i in bad:
+        t, d = obs["dts"][i], adds[i]
+        by_result = op == "R" and a[0] != 0 and obs["rc"] == 1 and t == a[1] and a[1] < d["start"] <= a[2]
+        par = d["trigBy"]
+        by_chain = par != 0 and obs["evs"].get((3, par), 0) > 0 and obs["dts"].get(par, t) == t
+        if not (by_result or by_chain):
+            return False
+    return True
+
+
 # F-C05a / F-C05b are repaired in /repo (eead572, 40d44b0): their classifiers are kept for the record but no longer
 # registered, so a recurrence is reported as a violation.
 CLASSIFIERS = {
     "c05_fixed_triggered_without_start": cls_fixed_triggered_without_start,
     "c05_result_from_the_future": cls_result_from_the_future,
+    "c05_trigger_before_start": cls_trigger_before_start,
 }
 
 
@@ -171,7 +200,8 @@ NEGATIVE_CONTROLS = [
 
 class C05(Check):
     prop = "C05"
-    required_theorems = ["in_downtime_iff", "depth_eq_count", "trigger_write_once", "trigger_write_once_run",
+    required_theorems = ["in_downtime_iff", "in_downtime_iff_run", "expired_removed_run", "trigger_not_before_start_partial",
+                         "trigger_not_before_start_counterexample", "depth_eq_count", "trigger_write_once", "trigger_write_once_run",
                          "trigger_only_in_window", "trigger_cascade", "trigger_cascade_deep", "flexible_trigger", "flexible_trigger_exact", "start_once", "start_once_future_counterexample",
                          "started_partial", "paused_requests_nothing", "started_counterexample", "end_once", "expired_removed", "owner_protected",
                          "model_trace_meets_spec_partial"]
@@ -180,18 +210,24 @@ class C05(Check):
     level_text = ("Machine-checked theorems (Lean 4 kernel) about the executable model of Downtime::IsInEffect/IsTriggered/IsExpired/CanBeTriggered/"
                   "TriggerDowntime/Start/DowntimesStartTimerHandler/cleanup timer/RemoveDowntime and Checkable::TriggerDowntimes/GetDowntimeDepth/"
                   "IsInDowntime, including a whole-trace theorem (model_trace_meets_spec_partial: every well-formed operation sequence's model trace "
-                  "satisfies every clause kind except the two falsified by F-C05c (14 of 16) of the executable specification through the specification's own bookkeeping); the model is tied to the code by running the real objects (direct construction as test/icinga-checkresult.cpp does, "
+                  "satisfies every clause kind of the executable specification through the specification's own bookkeeping except the three falsified by the code "
+                  "(16 of 19; masked: fixed_started_when_triggered / fixed_end_has_start = F-C05c, trigger_not_before_start = F-C05e; the DowntimeStart-when-it-takes-effect "
+                  "clauses are proved for flexible downtimes), and run-level forms of in-downtime-iff (with trigger <= now) and expired-removed (no hypothesis on the cleanup timer); "
+                  "the model is tied to the code by running the real objects (direct construction as test/icinga-checkresult.cpp does, "
                   "one case in eight through ConfigObjectUtility::CreateObject / Downtime::AddDowntime in a scratch data directory, and one in eight "
                   "through the registered API actions schedule-downtime / remove-downtime, i.e. ApiActions::ScheduleDowntime / RemoveDowntime) on generated "
                   "operation sequences and diffing every observation; the executable specification of the property is evaluated on the "
                   "implementation's own trace")
     level_note = ("Trusted: Lean kernel (+ propext, Classical.choice, Quot.sound), sampled correspondence of the hand-written model, harness/driver. "
-                  "One clause of the property (a DowntimeStart request for every downtime that took effect) is false of the code (known finding F-C05c) and carried as _partial/_counterexample; F-C05a/b are repaired (eead572, 40d44b0) and their theorems are full.")
+                  "Two clauses of the property are false of the code and carried as _partial/_counterexample: a DowntimeStart request for every FIXED downtime that took effect "
+                  "(known finding F-C05c; proved for flexible ones) and 'the recorded trigger time does not lie before start_time' (known finding F-C05e: result executed before "
+                  "start_time but processed inside the window, chained downtime inheriting an earlier trigger time); F-C05a/b are repaired (eead572, 40d44b0) and their theorems are full.")
     trusted_base = [
         "modelled, not verified: times are whole seconds, so the cleanup timer's 0.1 s delay is 'the first instant strictly after'; "
         "Downtime objects get authority (Resume) right after creation, as ApiListener::UpdateObjectAuthority does for HARunOnce objects; "
         "pausing a Downtime object itself (its cleanup timer), child downtimes on other checkables (parent/child_options), ScheduledDowntime's own creation/removal, cluster sync and "
-        "execution_end in the future of the processing time are outside the model",
+        "execution_end in the future of the processing time are outside the model; the checkable's max_check_attempts (1-4, i.e. SOFT and HARD problems) is varied by the "
+        "harness and deliberately absent from the model and the specification: the property does not depend on the state type",
     ]
     assumptions = [
         "timestamps used by the harness are integers (exact in binary64); check results carry execution_start = execution_end <= now, except in one generated case in twelve where some lie up to 6 s in the future (outside the hypothesis WF of the whole-run theorems; what the code does there is F-C05d)",
@@ -331,8 +367,10 @@ class C05(Check):
         res.distinct_nontrivial = total["nontrivial"]
         res.traces_validated = total["cases"]
         res.exhaustive = False
-        res.rule = ("corpus/C05/*.ops, then a systematic part (one fixed or flexible downtime [1010,1016), host/service, every placement of "
-                    "add / result / pump instants on a grid around the window) and seeded random cases: 1-5 fixed/flexible downtimes "
+        res.rule = ("corpus/C05/*.ops, then a systematic part (one fixed or flexible downtime [1010,1016), host/service, max_check_attempts 1 or 3, every placement of "
+                    "add / result / pump instants on a grid around the window), a systematic part for trigger chains (fixed or flexible trigger downtime with 2-3 chained "
+                    "downtimes and optionally one chained to the second of them, every subset of the chained ones removed by a user or expired before the trigger downtime "
+                    "takes effect through the start timer or a non-OK result) and seeded random cases (half of them with max_check_attempts 2-4): 1-5 fixed/flexible downtimes "
                     "(same / nested / adjacent / random windows, chained via triggered_by, owned by a schedule), 4-25 (thorough 4-43) operations "
                     "add / result / pump / remove / pause-resume of the checkable at instants drawn from all boundary instants +-1 plus small random steps; one case in eight "
                     "creates checkable and downtimes through ConfigObjectUtility::CreateObject / Downtime::AddDowntime, one in eight additionally "
